@@ -110,7 +110,13 @@ var s12Type = func() reflect.Type {
 type S13 struct {
 	Élan string
 	X    int
+	Ảnh  string
 }
+
+func (S13) Ẩn() string { return "V" }
+
+// LabelKey: a defined string type as the key type of a map
+type LabelKey string
 
 // spell: how a name of the model is written in a template ("Uelan", "uelan" stand for names outside ASCII)
 func spell(n string) string {
@@ -119,6 +125,10 @@ func spell(n string) string {
 		return "Élan"
 	case "uelan":
 		return "élan"
+	case "Uviet":
+		return "Ảnh"
+	case "Uvietm":
+		return "Ẩn"
 	}
 	return n
 }
@@ -126,7 +136,7 @@ func spell(n string) string {
 func shapeValue(sh string) interface{} {
 	switch sh {
 	case "S13":
-		return S13{Élan: "e", X: 17}
+		return S13{Élan: "e", X: 17, Ảnh: "v"}
 	case "S14": // an unnamed struct type that embeds S6 by value
 		return struct {
 			S6
@@ -187,6 +197,8 @@ func buildAObj(o AObj) interface{} {
 				return &m
 			}
 			return m
+		case "mnk":
+			return map[LabelKey]string{"X": "x", "Y": "y", "élan": "u"}
 		case "msi":
 			return map[string]int{"X": 8, "Y": 9, "élan": 3}
 		case "mii":
